@@ -37,6 +37,16 @@ CHECKS = {
         note="Cross-class construction compared on common fields; ConformerEnsemble(Molecule) coordinates left to C14; partial charges of a concatenation not asserted.",
         technique="metamorphic / differential property testing: snapshot-before vs snapshot-after under generated mutation scripts, identity walk for sharing",
     ),
+    "C07": dict(
+        category="exploration",
+        text="Exhaustive vocabulary leg: every Element x AtomType x AtomGeom (44 982 on this tree) as a one-atom molecule and every BondType on a two-atom "
+             "molecule is written, must be accepted by the reader with the element recovered, and the second write must reproduce the text. Random leg: generated "
+             "Molecule / Structure / ConformerEnsemble objects round-trip field by field at the written precision through loads / loads_all / load(stream) / "
+             "ConformerEnsemble.loads_mol2, plus the text fixed point.",
+        design_ref="DESIGN.md section 5, C07",
+        note="Labels whitespace-free; names one stripped line; |x|<1e5; isotopes / formal charges / stereo / attributes are not expressible in mol2 and not compared.",
+        technique="round-trip + fixed-point property testing; exhaustive enumeration of the emitted token vocabulary",
+    ),
     "C02": dict(
         category="exploration",
         text="Bounded-exhaustive (all op sequences up to length 4/5 over a 14-letter alphabet on two raw UKVFile handles) plus random "
